@@ -150,4 +150,178 @@ def verify_window_patterns():
     return fv
 
 
-ALL = [verify_window_patterns]
+def replay_patterns(model):
+    """directed search on the REAL MemoryMap.window_patterns(): maps of many widths, one window of every size at several
+    multiples of its size, probe addresses at the block boundaries and with high bits set; the pattern must have the map's width
+    and match exactly the window's block (the z3 model itself may give pow2 a non-power value: only ground facts are supplied)"""
+    from amaranth_soc.memory import MemoryMap
+    for aw in (1, 2, 3, 5, 8, 12, 16, 17, 24, 32, 33, 48, 53, 54, 56, 63, 64, 70):
+        for w in sorted({0, 1, 2, aw // 2, aw - 1, aw} & set(range(0, aw + 1))):
+            blocks = 1 << (aw - w)
+            for idx in sorted({0, 1, blocks // 2, blocks // 2 + 1, blocks - 2, blocks - 1, (blocks // 3) | 1} & set(range(blocks))):
+                start = idx << w
+                m = MemoryMap(addr_width=aw, data_width=8)
+                win = MemoryMap(addr_width=max(w, 1), data_width=8) if w >= 1 else None
+                if win is None:
+                    continue
+                try:
+                    m.add_window(win, addr=start)
+                except ValueError:
+                    continue
+                got = list(m.window_patterns())
+                if len(got) != 1:
+                    return True, {"input": f"MemoryMap({aw}) with one {w}-bit window at {start:#x}", "observed": f"{len(got)} patterns"}
+                pat = got[0][2][0]
+                if len(pat) != aw:
+                    return True, {"input": f"MemoryMap(addr_width={aw}) with one {w}-bit window at {start:#x}", "observed": f"pattern {pat!r} has {len(pat)} characters"}
+                for a_ in sorted({start - 1, start, start + (1 << w) - 1, start + (1 << w), start ^ (1 << (aw - 1)), start | 1, start + (1 << w) // 2} & set(range(1 << aw)) if aw <= 20
+                                 else {x for x in (start - 1, start, start + (1 << w) - 1, start + (1 << w), start ^ (1 << (aw - 1)), start | 1) if 0 <= x < 1 << aw}):
+                    bits = format(a_, f"0{aw}b")
+                    matches = all(p_ in ("-", b_) for p_, b_ in zip(pat, bits))
+                    if matches != (start <= a_ < start + (1 << w)):
+                        return True, {"input": f"MemoryMap(addr_width={aw}), one window of {w} address bits at {start:#x}; address {a_:#x}",
+                                      "observed": f"pattern {pat!r} {'matches' if matches else 'does not match'} the address, which is "
+                                                  f"{'inside' if start <= a_ < start + (1 << w) else 'outside'} the window"}
+    return False, {"searched": "address widths 1..70, windows of 1..aw bits at 7 block positions, 6-7 probe addresses each: no failing input"}
+
+
+def verify_window_patterns_all_widths():
+    """The same loop body over MATHEMATICAL INTEGERS, for every address width (no bound).
+    Encoding of Python's semantics: `x >> n` is floor(x / 2**n), `1 << n` is 2**n, `//` by a positive divisor is floor division;
+    2**n is the uninterpreted `pow2` with three GROUND facts about the terms of this path: pow2(w) > 0, pow2(aw - w) > 0 and
+    pow2(aw) == pow2(w) * pow2(aw - w) (Lean: Pow2.lean pow2_pos, Align.lean pow2_add).  Everything else is integer arithmetic
+    with a symbolic divisor, which z3 decides here (nonlinear, but two variables).  Case-pattern semantics as above: the digit
+    field Bin(v, c) at bit offset p matches a iff floor(a / 2**p) mod 2**c == v."""
+    from vf.pyvc.engine import pow2
+    fv = FnVerifier("MemoryMap.window_patterns[all widths]", [])
+    fv.default_replay = replay_patterns
+    fn = find_def(FILE, "MemoryMap.window_patterns")
+    loop = [st for st in fn.body if isinstance(st, ast.For)]
+    if len(loop) != 1 or ast.unparse(loop[0].iter) != "self.windows()":
+        raise Unsupported(f"{FILE}: window_patterns is no longer a single loop over self.windows()")
+    loop = loop[0]
+    names = [n.id for n in ast.walk(loop.target) if isinstance(n, ast.Name)]
+    if not {"window", "window_start"} <= set(names):
+        raise Unsupported(f"{FILE}:{loop.lineno}: loop target {ast.unparse(loop.target)}")
+    aw, w, start, stop, a = z3.Ints("aw w window_start window_stop a")
+    env = {"self.addr_width": aw, "window.addr_width": w, "window_ratio": z3.IntVal(1), "window_start": start, "window_stop": stop,
+           "window": "the window", "window_name": "its name"}
+    P, Q, T = pow2(w), pow2(aw - w), pow2(aw)
+    facts = [P > 0, Q > 0, T == P * Q, pow2(z3.IntVal(0)) == 1]
+    # what add_window hands out for a ratio-1 window inside the property's domain: a block of the window's size at a multiple of it
+    pre = [aw >= 1, w >= 0, w <= aw, start >= 0, start % P == 0, start + P <= T, stop == start + P, a >= 0, a < T]
+    yields = []
+    I = z3.IntVal
+
+    def ev(e, env, pc):
+        if isinstance(e, ast.Constant):
+            if isinstance(e.value, bool):
+                raise Unsupported("bool literal")
+            if isinstance(e.value, int):
+                return I(e.value)
+            if isinstance(e.value, str):
+                if e.value == "":
+                    return Pat([])
+                if set(e.value) == {"-"}:
+                    return Pat([("wild", I(len(e.value)))])
+                raise Unsupported(f"string literal {e.value!r}")
+        if isinstance(e, ast.Name):
+            if e.id not in env:
+                raise Unsupported(f"{FILE}:{e.lineno}: name {e.id}")
+            return env[e.id]
+        if isinstance(e, ast.Attribute):
+            k = ast.unparse(e)
+            if k in env:
+                return env[k]
+            raise Unsupported(f"{FILE}:{e.lineno}: {k}")
+        if isinstance(e, ast.JoinedStr):
+            if len(e.values) == 1 and isinstance(e.values[0], ast.FormattedValue):
+                fvv = e.values[0]
+                spec = fvv.format_spec
+                if (spec is not None and len(spec.values) == 3 and isinstance(spec.values[0], ast.Constant) and spec.values[0].value == "0"
+                        and isinstance(spec.values[1], ast.FormattedValue) and isinstance(spec.values[2], ast.Constant) and spec.values[2].value == "b"):
+                    v = ev(fvv.value, env, pc)
+                    if not isinstance(v, z3.ArithRef):
+                        raise Unsupported(f"{FILE}:{e.lineno}: formatted value is not an integer")
+                    return Pat([("bin", v, ev(spec.values[1].value, env, pc))])
+            raise Unsupported(f"{FILE}:{e.lineno}: f-string {ast.unparse(e)}")
+        if isinstance(e, ast.BinOp):
+            l, r = ev(e.left, env, pc), ev(e.right, env, pc)
+            if isinstance(l, Pat) and isinstance(r, Pat) and isinstance(e.op, ast.Add):
+                return l + r
+            if isinstance(l, Pat) and isinstance(e.op, ast.Mult) and isinstance(r, z3.ArithRef):
+                if len(l.segs) == 1 and l.segs[0][0] == "wild":
+                    return Pat([("wild", l.segs[0][1] * r)])
+                raise Unsupported("string repetition")
+            if not (isinstance(l, z3.ArithRef) and isinstance(r, z3.ArithRef)):
+                raise Unsupported(f"{FILE}:{e.lineno}: operator on {type(l).__name__}, {type(r).__name__}")
+            if isinstance(e.op, ast.Sub): return l - r
+            if isinstance(e.op, ast.Add): return l + r
+            if isinstance(e.op, ast.Mult): return l * r
+            if isinstance(e.op, ast.RShift): return l / pow2(r)                    # floor division: z3 Int `/` with a positive divisor
+            if isinstance(e.op, ast.LShift): return pow2(r) if z3.is_int_value(l) and l.as_long() == 1 else l * pow2(r)
+            if isinstance(e.op, ast.FloorDiv): return l / r
+            if isinstance(e.op, ast.Mod): return l % r
+            if isinstance(e.op, ast.BitAnd) and z3.is_int_value(z3.simplify(r)) and (z3.simplify(r).as_long() + 1) & z3.simplify(r).as_long() == 0 \
+                    and z3.simplify(r).as_long() >= 0:
+                return l % (z3.simplify(r).as_long() + 1)                            # x & (2**n - 1) == x mod 2**n (all ints)
+            raise Unsupported(f"{FILE}:{e.lineno}: operator {type(e.op).__name__} (only exact integer operators are modelled)")
+        if isinstance(e, ast.Compare) and len(e.ops) == 1:
+            l, r = ev(e.left, env, pc), ev(e.comparators[0], env, pc)
+            if type(e.ops[0]) not in (ast.Gt, ast.GtE, ast.Lt, ast.LtE, ast.Eq, ast.NotEq):
+                raise Unsupported(f"{FILE}:{e.lineno}: comparison {type(e.ops[0]).__name__}")
+            return {ast.Gt: l > r, ast.GtE: l >= r, ast.Lt: l < r, ast.LtE: l <= r, ast.Eq: l == r, ast.NotEq: l != r}[type(e.ops[0])]
+        if isinstance(e, ast.Tuple):
+            return tuple(ev(x, env, pc) for x in e.elts)
+        raise Unsupported(f"{FILE}:{getattr(e, 'lineno', '?')}: {ast.unparse(e)[:60]}")
+
+    def block(stmts, env, pc):
+        for i, st in enumerate(stmts):
+            if isinstance(st, ast.Assign) and len(st.targets) == 1 and isinstance(st.targets[0], ast.Name):
+                env = dict(env); env[st.targets[0].id] = ev(st.value, env, pc)
+            elif isinstance(st, ast.If):
+                c = ev(st.test, env, pc)
+                block(st.body + stmts[i + 1:], env, pc + [c])
+                block(st.orelse + stmts[i + 1:], env, pc + [z3.Not(c)])
+                return
+            elif isinstance(st, ast.Expr) and isinstance(st.value, ast.Yield):
+                yields.append((ev(st.value.value, env, pc), pc))
+            elif isinstance(st, ast.Expr) and isinstance(st.value, ast.Constant):
+                pass
+            else:
+                raise Unsupported(f"{FILE}:{st.lineno}: statement {type(st).__name__} in window_patterns")
+
+    block(loop.body, env, [])
+    fv.paths = len(yields)
+    for k, (val, pc) in enumerate(yields):
+        if not (isinstance(val, tuple) and len(val) == 3 and isinstance(val[2], tuple) and isinstance(val[2][0], Pat)):
+            raise Unsupported("yield shape")
+        pat = val[2][0]
+        length, pos = I(0), I(0)
+        fits, match, nonneg = [], [], []
+        for seg in reversed(pat.segs):
+            if seg[0] == "wild":
+                nonneg.append(seg[1] >= 0)
+                length = length + seg[1]; pos = pos + seg[1]
+            else:
+                _, v, c = seg
+                nonneg.append(c >= 0)
+                fits.append(z3.And(v >= 0, v < pow2(c)))                         # otherwise format() needs more than c digits
+                match.append((a / pow2(pos)) % pow2(c) == v)
+                length = length + c; pos = pos + c
+        lab = f"yield{k}"
+        H = facts + pre + pc
+        fv.add("field-widths-nonnegative", lab, H, z3.And(*nonneg) if nonneg else z3.BoolVal(True), axioms=[])
+        fv.add("constant-part-fits-its-field", lab, H, z3.And(*fits) if fits else z3.BoolVal(True), axioms=[])
+        fv.add("pattern-has-the-width-of-the-address", lab, H, length == aw, axioms=[])
+        fv.add("pattern-matches-exactly-the-window", lab, H,
+               (z3.And(*match) if match else z3.BoolVal(True)) == z3.And(a >= start, a < start + P), axioms=[])
+        fv.add("ratio-passed-through", lab, H, val[2][1] == 1, axioms=[])
+        if not pc or k == 0:
+            fv.add("canary:premises-satisfiable", lab, [], z3.Not(z3.And(*(H + [aw == 60, w == 3, pow2(I(3)) == 8, pow2(I(57)) == 1 << 57, pow2(I(60)) == 1 << 60,
+                                                                            start == (1 << 59) + 8]))), expect_sat=True, axioms=[])
+    fv.add("cover:yields", "vacuity", [], z3.BoolVal(len(yields) >= 2), axioms=[])
+    return fv
+
+
+ALL = [verify_window_patterns, verify_window_patterns_all_widths]
